@@ -38,6 +38,16 @@ Theorem C08_letter_case_table :
 Proof. split; reflexivity. Qed.
 Print Assumptions C08_letter_case_table.
 
+(* v1 AUTO key case: for a canonical name, each documented casing except SCREAMING is
+   the name itself or one of the keys `possible_json_keys` tries. *)
+Theorem C08_auto_keys_cover :
+  forall n c, canonical_snake n -> c <> Screaming ->
+  exists k ks, apply_casing c n = Some k /\ possible_json_keys n = Some ks /\ (k = n \/ In k ks).
+Proof.
+  intros n c (w & ws & Hw & Hws & ->) Hc. exact (auto_keys_cover w ws c Hw Hws Hc).
+Qed.
+Print Assumptions C08_auto_keys_cover.
+
 (* ---- object paths (KeyPath / path_field / AliasPath strings) ---------------- *)
 From DW Require Import T_ObjPath ObjPath ObjPathProofs.
 
